@@ -1042,3 +1042,9 @@ VARIANTS += [
     V('C10-M30', 'M', ('C10',), TE, 'tee', r"Fork\(instream, n, buffer, head, instream_lock, i\)", "Fork(instream, 2, buffer, head, instream_lock, i)", ('C10-8',), note='seeded C10-r4m2 shape: constant number of forks'),
     V('C10-E30', 'E', ALL, TE, 'tee', r"Fork\(instream, n, buffer, head, instream_lock, i\)", "Fork(instream, n_forks=n, buffer=buffer, head=head, instream_lock=instream_lock, fork_idx=i)", note='keyword form of the construction'),
 ]
+
+TH = 'threading/__init__.py'
+VARIANTS += [
+    V('C12-M32', 'M', ('C12',), TH, 'Thread.run', r"try:\n\s+cause = type\(e\)\(tb\)\n\s+except Exception:\n(?:\s+#[^\n]*\n)*\s+cause = RuntimeError\(tb\)\n", "cause = type(e)(tb)\n", ('C12-1',), note='D21 shape: user class constructor in the handler, unguarded'),
+    V('C12-E32', 'E', ALL, TH, 'Thread.run', r"cause = RuntimeError\(tb\)", "cause = Exception(tb)", note='another total class for the fallback'),
+]
